@@ -171,11 +171,39 @@ func c16Backoff(p *Prog, r *Report) {
 
 // timer families of a maintenance loop
 type timerInfo struct {
-	family map[ssa.Value]string // NewTimer calls and phis -> "refresh" | "connect"
+	family   map[ssa.Value]string  // NewTimer calls and phis -> "refresh" | "connect"
+	fieldFam map[*types.Var]string // *time.Timer fields of a loop-state struct -> family
 }
 
-func classifyTimers(fn *ssa.Function) *timerInfo {
-	ti := &timerInfo{family: map[ssa.Value]string{}}
+// keeperType: the loop state may live in a small struct built by the loop function (fields for
+// the timer, the pending flag, the connection) whose methods hold the loop body.
+func keeperType(p *Prog, fn *ssa.Function) *types.Named {
+	var kt *types.Named
+	eachInstr(fn, func(in ssa.Instruction) {
+		a, ok := in.(*ssa.Alloc)
+		if !ok {
+			return
+		}
+		n := namedOf(a.Type())
+		if n == nil || n.Obj().Pkg() == nil || !strings.HasPrefix(n.Obj().Pkg().Path(), modPath) {
+			return
+		}
+		st, ok := n.Underlying().(*types.Struct)
+		if !ok {
+			return
+		}
+		for i := 0; i < st.NumFields(); i++ {
+			if typeIs(st.Field(i).Type(), "time", "Timer") {
+				kt = n
+			}
+		}
+	})
+	return kt
+}
+
+func classifyTimers(fn *ssa.Function, more ...*ssa.Function) *timerInfo {
+	ti := &timerInfo{family: map[ssa.Value]string{}, fieldFam: map[*types.Var]string{}}
+	fieldRep := map[*types.Var]ssa.Value{}
 	var timers []ssa.Value
 	parent := map[ssa.Value]ssa.Value{}
 	var find func(v ssa.Value) ssa.Value
@@ -188,12 +216,31 @@ func classifyTimers(fn *ssa.Function) *timerInfo {
 	}
 	union := func(a, b ssa.Value) { parent[find(a)] = find(b) }
 	kind := map[ssa.Value]string{}
-	eachInstr(fn, func(in ssa.Instruction) {
+	each := func(f func(in ssa.Instruction)) {
+		eachInstr(fn, f)
+		for _, m := range more {
+			eachInstr(m, f)
+		}
+	}
+	each(func(in ssa.Instruction) {
 		switch x := in.(type) {
 		case *ssa.Call:
 			if callIsFunc(x, "time", "NewTimer") {
 				timers = append(timers, x)
 				parent[x] = x
+				// timers kept in the same field of the loop-state struct are one family
+				for _, ref := range *x.Referrers() {
+					if st, ok := ref.(*ssa.Store); ok && st.Val == ssa.Value(x) {
+						if fa, ok := st.Addr.(*ssa.FieldAddr); ok {
+							f := fieldOfAddr(fa)
+							if rep, ok := fieldRep[f]; ok {
+								union(x, rep)
+							} else {
+								fieldRep[f] = x
+							}
+						}
+					}
+				}
 				for _, o := range origins(x.Call.Args[0]) {
 					if c, ok := o.(*ssa.Call); ok {
 						if c.Call.IsInvoke() && c.Call.Method.Name() == "NextDelay" {
@@ -228,8 +275,28 @@ func classifyTimers(fn *ssa.Function) *timerInfo {
 	for t, k := range kind {
 		famKind[find(t)] = k
 	}
+	// a family whose delay is of unknown origin is the reconnect timer when no other family is
+	// (the delay is then judged: it must come from the reconnect policy)
+	haveConnect := false
+	for _, k := range famKind {
+		if k == "connect" {
+			haveConnect = true
+		}
+	}
+	if !haveConnect {
+		for _, t := range timers {
+			if _, isCall := t.(*ssa.Call); isCall && famKind[find(t)] == "" {
+				if k, ok := constInt(t.(*ssa.Call).Call.Args[0]); !(ok && k == 0) {
+					famKind[find(t)] = "connect"
+				}
+			}
+		}
+	}
 	for _, t := range timers {
 		ti.family[t] = famKind[find(t)]
+	}
+	for f, rep := range fieldRep {
+		ti.fieldFam[f] = famKind[find(rep)]
 	}
 	return ti
 }
@@ -238,9 +305,15 @@ func (ti *timerInfo) of(v ssa.Value) string {
 	if f, ok := ti.family[v]; ok {
 		return f
 	}
+	if f, _ := loadedField(v); f != nil && ti.fieldFam[f] != "" {
+		return ti.fieldFam[f]
+	}
 	for _, o := range origins(v) {
 		if f, ok := ti.family[o]; ok && f != "" {
 			return f
+		}
+		if f, _ := loadedField(o); f != nil && ti.fieldFam[f] != "" {
+			return ti.fieldFam[f]
 		}
 	}
 	return ""
@@ -255,7 +328,12 @@ type loopResult struct {
 // simulateMaintenanceLoop explores a stayConnected loop with the timer/flag typestate.
 func simulateMaintenanceLoop(p *Prog, fn *ssa.Function, connectOK func(call ssa.CallInstruction, callee *ssa.Function) (tuple bool, match bool)) loopResult {
 	res := loopResult{resets: map[string]int{}}
-	ti := classifyTimers(fn)
+	kt := keeperType(p, fn)
+	var keeperFns []*ssa.Function
+	if kt != nil {
+		keeperFns = p.methodsOf(kt)
+	}
+	ti := classifyTimers(fn, keeperFns...)
 	// header: the block with the most predecessors that is a loop header
 	var header *ssa.BasicBlock
 	for _, b := range fn.Blocks {
@@ -290,7 +368,32 @@ func simulateMaintenanceLoop(p *Prog, fn *ssa.Function, connectOK func(call ssa.
 			}
 		}
 	}
-	if len(flagOf) == 0 {
+	// flags kept in the loop-state struct: a bool field set to true where a timer of a family is armed
+	fieldFlagOf := map[*types.Var]string{}
+	for _, g := range append([]*ssa.Function{fn}, keeperFns...) {
+		eachInstr(g, func(in ssa.Instruction) {
+			st, ok := in.(*ssa.Store)
+			if !ok {
+				return
+			}
+			fa, ok := st.Addr.(*ssa.FieldAddr)
+			if !ok || namedOf(fa.X.Type()) != kt || kt == nil {
+				return
+			}
+			c, ok := st.Val.(*ssa.Const)
+			if !ok || c.Value == nil || c.Value.Kind() != constant.Bool || !constant.BoolVal(c.Value) {
+				return
+			}
+			for _, bin := range st.Block().Instrs {
+				if call, ok := bin.(*ssa.Call); ok && callIsFunc(call, "time", "NewTimer") {
+					if f := ti.of(call); f != "" {
+						fieldFlagOf[fieldOfAddr(fa)] = f
+					}
+				}
+			}
+		})
+	}
+	if len(flagOf) == 0 && len(fieldFlagOf) == 0 {
 		res.problems = append(res.problems, "no pending-flag / timer pair recognised in the loop")
 	}
 	// select cases on timer channels
@@ -299,7 +402,7 @@ func simulateMaintenanceLoop(p *Prog, fn *ssa.Function, connectOK func(call ssa.
 		k   int64
 	}
 	timerCase := map[caseKey]string{}
-	eachInstr(fn, func(in ssa.Instruction) {
+	selScan := func(in ssa.Instruction) {
 		sel, ok := in.(*ssa.Select)
 		if !ok {
 			return
@@ -317,8 +420,21 @@ func simulateMaintenanceLoop(p *Prog, fn *ssa.Function, connectOK func(call ssa.
 				}
 			}
 		}
-	})
+	}
+	eachInstr(fn, selScan)
+	for _, g := range keeperFns {
+		eachInstr(g, selScan)
+	}
 	s := newSim(p)
+	if kt != nil {
+		// the loop body lives in the methods of the loop-state struct; its fields are the loop variables
+		s.Inline = func(f *ssa.Function) bool { return recvNamed(f) == kt && f.Parent() == nil }
+		if stt, ok := kt.Underlying().(*types.Struct); ok {
+			for i := 0; i < stt.NumFields(); i++ {
+				s.Tracked[stt.Field(i)] = true
+			}
+		}
+	}
 	s.Model = func(sm *Sim, st *State, call ssa.CallInstruction, callee *ssa.Function) []*State {
 		cm := call.Common()
 		switch {
@@ -385,6 +501,11 @@ func simulateMaintenanceLoop(p *Prog, fn *ssa.Function, connectOK func(call ssa.
 		for phi, fam := range flagOf {
 			if b, known := st.vals[phi].isBool(); known && b && st.aux["armed:"+fam] != "1" {
 				res.problems = append(res.problems, fmt.Sprintf("the %s-pending flag (%s) is true while its timer is not armed: the loop waits for an event that never fires and stops scheduling %ses", fam, phi.Comment, fam))
+			}
+		}
+		for fld, fam := range fieldFlagOf {
+			if b, known := st.cells[fld].isBool(); known && b && st.aux["armed:"+fam] != "1" {
+				res.problems = append(res.problems, fmt.Sprintf("the %s-pending flag (%s) is true while its timer is not armed: the loop waits for an event that never fires and stops scheduling %ses", fam, fld.Name(), fam))
 			}
 		}
 		switch st.aux["connected"] {
@@ -856,10 +977,18 @@ func c16Outage(p *Prog, r *Report) {
 			continue
 		}
 		found = true
-		// outage < timeout => 200 ; else 503
-		lessThan := (cmp.Op == token.LSS && func() bool { f, _ := loadedField(cmp.Y); return f == rtF }()) ||
-			(cmp.Op == token.GTR && func() bool { f, _ := loadedField(cmp.X); return f == rtF }())
-		if !lessThan {
+		// outage < timeout => 200 ; else 503 (in any of the four equivalent spellings)
+		rtOnY := func() bool { f, _ := loadedField(cmp.Y); return f == rtF }()
+		okTruth, strict := true, true
+		switch {
+		case cmp.Op == token.LSS && rtOnY, cmp.Op == token.GTR && !rtOnY:
+			okTruth = true
+		case cmp.Op == token.GEQ && rtOnY, cmp.Op == token.LEQ && !rtOnY:
+			okTruth = false
+		default:
+			strict = false
+		}
+		if !strict {
 			hb = append(hb, p.Pos(cmp.Pos())+": readiness does not compare `outage < readiness-timeout`")
 		}
 		// the outage operand comes from OutageDuration
@@ -878,8 +1007,8 @@ func c16Outage(p *Prog, r *Report) {
 			cm := c.Common()
 			if cm.IsInvoke() && cm.Method.Name() == "WriteHeader" {
 				code, _ := constInt(cm.Args[0])
-				t := guardedBy(c.Block(), cmp, true)
-				f := guardedBy(c.Block(), cmp, false)
+				t := guardedBy(c.Block(), cmp, okTruth)
+				f := guardedBy(c.Block(), cmp, !okTruth)
 				switch {
 				case code == 200 && !t:
 					hb = append(hb, p.Pos(c.Pos())+": 200 is not restricted to `outage < readiness-timeout`")
